@@ -18,6 +18,7 @@ PROPS = {
     "C17": P("pure", shards=(8, 16), floor=(10, 10)),
     "C01": P("appmon", shards=(6, 16), floor=(10, 10)),
     "C02": P("appmon", shards=(6, 16), floor=(10, 10)),
+    "C05": P("appmon", shards=(6, 16), floor=(10, 10)),
     "C03": P("appmon", shards=(6, 16), floor=(10, 10)),
     "C08": P("appmon", shards=(6, 16), floor=(10, 10)),
     "C07": P("appmon", shards=(6, 16), floor=(10, 10)),
